@@ -3,6 +3,8 @@ System evaluation equals the dense sum of the contributions' own local quantitie
 leaves layout and evaluations unchanged."""
 from __future__ import annotations
 
+import contextlib
+import io
 import warnings
 
 import numpy as np
@@ -192,6 +194,35 @@ def run(ctx, table):
             if r[0] == "ok" and r1 and r1[0] == "ok":
                 if np.shape(r[1]) != np.shape(r1[1]) or not np.allclose(r[1], r1[1], rtol=1e-12, atol=1e-12):
                     ctx.violation(f"real:reassemble:{m}", f"system.{m} changed after a second assemble(); {desc}", rep)
+        # third assembly after a same-size reorder: a mass contribution is removed and added again (it moves to the end of the list, every
+        # index space is permuted, the totals stay the same); everything derived from the old layout must be rebuilt
+        movable = [c for c in system.contributions[:-1] if type(c).__name__ in ("RigidBody", "PointMass")]
+        if movable:
+            mv = movable[rng.randrange(len(movable))]
+            try:
+                with warnings.catch_warnings(), contextlib.redirect_stdout(io.StringIO()):
+                    warnings.simplefilter("ignore")
+                    system.remove(mv)
+                    system.add(mv)
+                    system.assemble(options=opts)
+            except Exception as ex:
+                ctx.violation(f"real:reorder-raises:{type(ex).__name__}", f"remove + add + assemble raised {type(ex).__name__}: {ex}; {desc}", rep)
+                continue
+            lay3 = _snapshot_layout(system)
+            T3 = lay3["__totals__"]
+            if T3 != T:
+                ctx.violation("real:reorder-totals", f"totals changed by moving {mv.name} to the end of the list: {T} -> {T3}; {desc}", rep)
+                continue
+            q3 = system.q0 + 0.1 * vec(T3["q"])
+            glob3 = dict(glob, q=q3, q2=q3 + 0.05 * vec(T3["q"]))
+            ev3 = evaluate_all(system, table, glob3, skip)
+            for m, r3 in ev3.items():
+                if r3[0] == "system-raises":
+                    ctx.violation(f"real:reorder:{m}:system-raises", f"system.{m} raised {r3[1]} after moving {mv.name} to the end of the list; {desc}", rep)
+                elif r3[0] == "ok":
+                    got, ref = r3[1], r3[2]
+                    if np.shape(got) != np.shape(ref) or not np.allclose(got, ref, rtol=1e-12, atol=1e-12):
+                        ctx.violation(f"real:reorder:{m}", f"system.{m} differs from the sum of local quantities after {mv.name} was removed, added again and the system re-assembled; {desc}", rep)
         done += 1
     ctx.notes.append(f"real systems: {done}/{n} fully checked; local calls that raised (not judged here): {local_raises}")
     ctx.log(f"[C14] real systems: {done}/{n} assembled twice and compared; local-raises {local_raises}")
